@@ -58,8 +58,8 @@ impl Stage for Sizes {
             any::<bool>(),
             prop_oneof![2 => 0u16..30, 3 => 30u16..160, 2 => 160u16..=500, 1 => Just(500u16)],
             prop_oneof![Just(0u8), Just(100u8), 0u8..=100],
-            0u8..=16,
-            0u8..=8,
+            prop_oneof![4 => 0u8..=16, 1 => 60u8..=110],
+            prop_oneof![6 => 0u8..=8, 1 => 40u8..=70],
             vec(q, 3..14),
         )
             .prop_map(|(node_v6, k, v6_share, table_v4, table_v6, queries)| Case { node_v6, k, v6_share, table_v4, table_v6, queries })
@@ -73,24 +73,28 @@ impl Stage for Sizes {
             let node_id: Id = [0x71; 20];
             // table: contacts of both families, all naming each other
             let mut contacts: Vec<(Id, SocketAddr)> = vec![];
+            // ids: 8 per bucket (bit i/8 of the node id flipped, distinct tails), so that all of them
+            // fit the routing table however many there are
+            let spread = |i: u8, salt: u8| -> Id {
+                let mut id = node_id;
+                let bit = (i / 8) as usize;
+                id[bit / 8] ^= 0x80 >> (bit % 8);
+                id[10] = salt;
+                id[11] = i;
+                id[19] = i.wrapping_mul(37) ^ salt;
+                id
+            };
             for i in 0..c.table_v4 {
-                let mut id = [0u8; 20];
-                id[0] = 0x80 ^ i.wrapping_mul(37);
-                id[1] = i;
-                contacts.push((id, fam_addr(false, 100 + i as u16, 7000)));
+                contacts.push((spread(i, 4), fam_addr(false, 100 + i as u16, 7000)));
             }
             for i in 0..c.table_v6 {
-                let mut id = [0u8; 20];
-                id[0] = 0x40 ^ i.wrapping_mul(53);
-                id[1] = 0x66;
-                id[2] = i;
-                contacts.push((id, fam_addr(true, 100 + i as u16, 7000)));
+                contacts.push((spread(i, 6), fam_addr(true, 100 + i as u16, 7000)));
             }
             for (id, a) in &contacts {
                 spawn_simple_contact(&net, *a, *id, contacts.clone(), 3);
             }
             let dht = start_node(&net, &NodeCfg { addr: node, id: node_id, read_only: false, nodes: contacts.iter().map(|c| c.1).collect(), routers: vec![], announce_port: None });
-            let _ = within(Duration::from_secs(120), dht.bootstrapped()).await;
+            let _ = within(Duration::from_secs(400), dht.bootstrapped()).await;
             let solo = super::single::Solo { net: net.clone(), node, node_id, dht: Some(dht), v6: c.node_v6 };
             // store k peers on one hash
             for i in 0..c.k {
@@ -177,9 +181,9 @@ impl Stage for Sizes {
     }
     fn rule(&self) -> String {
         if self.discipline {
-            return "C17's worlds (one real serving node, 0..24 table nodes of both families, k in 0..500 peers announced on one info-hash from distinct v4/v6 sources) with C05's oracle: each of 3..13 queries of every kind (want absent/n4/n6/both, tid length 0..32, requester of either family) gets exactly one reply with the echoed tid and the node's id; get_peers replies carry a 20-byte token and only values of the requester's family; others no token/values; announce with a bad token is refused with 203. Non-trivial: k >= 100".into();
+            return "C17's worlds (one real serving node, 0..180 table nodes of both families, k in 0..500 peers announced on one info-hash from distinct v4/v6 sources) with C05's oracle: each of 3..13 queries of every kind (want absent/n4/n6/both, tid length 0..32, requester of either family) gets exactly one reply with the echoed tid and the node's id; get_peers replies carry a 20-byte token and only values of the requester's family; others no token/values; announce with a bad token is refused with 203. Non-trivial: k >= 100".into();
         }
-        "one real serving node (v4/v6) whose table holds 0..16 v4 and 0..8 v6 contacts; k in 0..500 peers announced on one info-hash from distinct v4/v6 sources with valid tokens; then 3..13 queries of every kind (want absent/n4/n6/both, tid length 0..32, requester of either family). Oracle: every datagram the node handed to the network is <= 1500 bytes and every reply decodes with the independent codec. Non-trivial: k >= 100 (reply is size-limited, not content-limited)".into()
+        "one real serving node (v4/v6) whose table holds 0..16 (20 %: 60..110) v4 and 0..8 (15 %: 40..70) v6 contacts, 8 per bucket; k in 0..500 peers announced on one info-hash from distinct v4/v6 sources with valid tokens; then 3..13 queries of every kind (want absent/n4/n6/both, tid length 0..32, requester of either family). Oracle: every datagram the node handed to the network is <= 1500 bytes and every reply decodes with the independent codec. Non-trivial: k >= 100 (reply is size-limited, not content-limited)".into()
     }
 }
 
